@@ -123,6 +123,30 @@ Fixpoint follow (fuel : nat) (e : site_env) (via_idp : bool) (b : browser) (q : 
     end
   end.
 
+(* Persistent failures (status [st]) of one request that is retried on its own URL, in a browser with any jar, with the
+   lookup of the retry cookie in the Cookie header as a parameter. [pick := first_named] is the code (pkg/cookie Get =
+   http.Request.Cookie) and then this is [follow] on a constant fault list; any other [pick] only serves to state what the
+   first-match rule is needed for (Properties/C17.v c17_last_match_refuted). Returns the status codes seen. *)
+Definition with_retry (r : krequest) (rc : option bytes) : krequest :=
+  {| r_ep := r_ep r; r_mp := r_mp r; r_retry := rc; r_logincount := r_logincount r; r_has_session := r_has_session r;
+     r_has_login := r_has_login r; r_ingress_ok := r_ingress_ok r; r_prompt := r_prompt r; r_fault := r_fault r |}.
+
+Fixpoint fail_chain (pick : bytes -> list jcookie -> option cvalue) (fuel : nat) (e : site_env) (b : browser) (q : breq) (st : Z)
+  : list Z :=
+  match fuel with
+  | O => []
+  | S n =>
+    let u := origin_of e (q_path q) in
+    let rc := lit_of (pick (cookie_name (e_cfg e) CkRetry) (jar_select (e_trust e) (b_now b) u (b_jar b))) in
+    let rs := handle (e_cfg e) (with_retry (build_request e b q (CFErr st)) rc) in
+    let b' := {| b_jar := jar_set_all (b_now b) u (rs_cookies rs) (jar_gc (b_now b) (b_jar b));
+                 b_now := b_now b; b_session := b_session b |} in
+    match rs_kind rs with
+    | CrRedirect307 => rs_status rs :: fail_chain pick n e b' q st
+    | _ => [rs_status rs]
+    end
+  end.
+
 (* explicit krequest sequence with waiting times (no following) *)
 Fixpoint run_seq (e : site_env) (b : browser) (steps : list (Z * breq * cfault)) : list (kresponse * browser) :=
   match steps with
